@@ -368,8 +368,8 @@ func min(a, b int) int {
 func init() {
 	tail := ": 1..4 building blocks (complete cliques of 2..5 literals of one or mixed polarity, clique minus one edge, two overlapping cliques, repeated binary clause, loose binary clauses, longer clauses, sometimes a unit clause; in a third of the cases the shared clique-rich generator over 6..12 variables, whose extra family is an at-most-one group of 5..7 variables with clauses over most of the group and clauses linking it to other variables), clause order shuffled, optional cost function; oracle = truth table of the clauses as written; the parsed problem is evaluated (without solving) from its exported data before and after DetectAtMostOne: same variables, same model set; then Solve / CountModels / Optimal after detection equal the truth, with the default strategy and (Solve, CountModels) with the cutting-planes strategy; non-trivial = detection changed the problem"
 	vf.Register(
-		vf.Sub[Case]{Name: "cnf", Quick: 4000, Thorough: 200000, Gen: genCase("cnf"), Check: check, Floor: 0.25, Rule: "CNF n in 3..9 via ParseSliceNb" + tail},
-		vf.Sub[Case]{Name: "big-group-search", Quick: 8000, Thorough: 300000, Gen: genBigGroup, Check: check, Floor: 0.8, Rule: "CNF over 7..12 variables via ParseSliceNb: one pairwise-encoded at-most-one group of 5..7 variables, 1..2 long clauses over most of the group (members of either sign, some outsiders), 2..7 clauses of 2..3 literals over all variables, clause order shuffled: the detected constraint is the reason of most propagations during the search that Solve and CountModels perform after detection" + tail},
+		vf.Sub[Case]{Name: "cnf", Quick: 4000, Thorough: 80000, Gen: genCase("cnf"), Check: check, Floor: 0.25, Rule: "CNF n in 3..9 via ParseSliceNb" + tail},
+		vf.Sub[Case]{Name: "big-group-search", Quick: 8000, Thorough: 100000, Gen: genBigGroup, Check: check, Floor: 0.8, Rule: "CNF over 7..12 variables via ParseSliceNb: one pairwise-encoded at-most-one group of 5..7 variables, 1..2 long clauses over most of the group (members of either sign, some outsiders), 2..7 clauses of 2..3 literals over all variables, clause order shuffled: the detected constraint is the reason of most propagations during the search that Solve and CountModels perform after detection" + tail},
 		vf.Sub[Case]{Name: "pb", Quick: 2000, Thorough: 100000, Gen: genCase("pb"), Check: check, Floor: 0.2, Rule: "the same clauses given as PropClause constraints plus 0..2 PB constraints (in a third of the cases also a weighted constraint over clique members that a unit constraint shrinks to two literals of different weights) via ParsePBConstrs" + tail},
 	)
 }
